@@ -13,6 +13,11 @@ import (
 var checks = map[string]func(tier string) *core.Report{
 	"C01": progcheck.C01,
 	"C02": progcheck.C02,
+	"C03": progcheck.C03,
+	"C04": progcheck.C04,
+	"C05": progcheck.C05,
+	"C06": progcheck.C06,
+	"C07": progcheck.C07,
 	"C11": progcheck.C11,
 	"C18": progcheck.C18,
 	"C14": progcheck.C14,
